@@ -65,7 +65,7 @@ def lincomb(ctx, F):
         if item is not None and len(idxs) == 1 and s(comp(idxs[0][1], '1', '1', '0')) == s(item) and is_call(item, 'Iterator::next'):
             # the elements are enumerate(coefficients) collected BEFORE sorting
             src = item[2][0]
-            enum_first = any(is_call(x, 'Itertools::collect_vec') and is_call(x[2][0], 'Iterator::enumerate') and x[2][0][2][0] == ('param', 'coefficients') for x in walk(src))
+            enum_first = any(is_call(x, 'Itertools::collect_vec', 'Iterator::collect') and is_call(x[2][0], 'Iterator::enumerate') and x[2][0][2][0] == ('param', 'coefficients') for x in walk(src))
             # the counter `no` (item.0) is not printed
             no_printed = any(comp(d[1], '0') is not None and s(comp(d[1], '0')) == s(item) for d in disp)
             # nothing else numeric is printed in the non-skip path
@@ -338,8 +338,15 @@ def dot(ctx, F):
             node = ('field', item, '1')
             aff = ('field', ('field', node, 'value'), 'aff')
             leaf_lit = lambda lits, want: any(l[0] == want and s(l[1]) == s(('field', node, 'isleaf')) for l in lits)
-            ok = s(wfn[0][1][1]) == s(aff) and leaf_lit(wfn[0][2], 'true') and \
-                is_call(wpl[0][1][1], 'AffFuncBase::from_mats') and s(wpl[0][1][1][2][0]) == s(('field', aff, 'mat')) and s(wpl[0][1][1][2][1]) == s(('field', aff, 'bias')) and leaf_lit(wpl[0][2], 'false') \
+            pred = wpl[0][1][1]
+            own_pred = is_call(pred, 'AffFuncBase::from_mats') and s(pred[2][0]) == s(('field', aff, 'mat')) and s(pred[2][1]) == s(('field', aff, 'bias'))
+            if not own_pred and is_call(pred, 'AffContent::to_poly') and s(pred[2][0]) == s(('field', node, 'value')):
+                # the accessor: checked to be from_mats(self.aff.mat, self.aff.bias)
+                tp = F.q('AffContent::to_poly')
+                tr = [e for _, e in Resolver(tp).return_expr()] if tp is not None else []
+                SA = ('field', ('param', 'self'), 'aff')
+                own_pred = len(tr) == 1 and is_call(tr[0], 'AffFuncBase::from_mats') and tr[0][2][0] == ('field', SA, 'mat') and tr[0][2][1] == ('field', SA, 'bias')
+            ok = s(wfn[0][1][1]) == s(aff) and leaf_lit(wfn[0][2], 'true') and own_pred and leaf_lit(wpl[0][2], 'false') \
                 and any(s(d[1]) == s(('field', item, '0')) for d in disp)
         (ctx.ok if ok else ctx.bad)('C19.R4', site, 'one loop over node_iter(): n{idx} with the node\'s own function (leaf) or predicate (decision)' if ok else
                                     'DOT node statements do not show each stored node once with its own function/predicate', b.span)
